@@ -20,6 +20,13 @@ fn main() {
         let t = std::time::Instant::now();
         let r = props::stages::run_stages(&src);
         println!("{r:?} in {:?}", t.elapsed());
+        match rooc::RoocParser::new(src.clone()).format() {
+            Ok(f) => {
+                let again = rooc::RoocParser::new(f.clone()).parse().map(|_| "parses".to_string()).unwrap_or_else(|e| format!("DOES NOT PARSE: {}", e.to_string_from_source(&f)));
+                println!("format ({again}):\n{f}\n--");
+            }
+            Err(e) => println!("format error: {e}"),
+        }
         match rooc::RoocParser::new(src.clone()).type_check(&vec![], &indexmap::IndexMap::new()) {
             Ok(_) => println!("type_check: accepted"),
             Err(e) => println!("type_check: rejected: {e}"),
@@ -28,6 +35,10 @@ fn main() {
             Ok(m) => println!("model:\n{m}"),
             Err(e) => println!("error: {e}"),
         }
+        return;
+    }
+    if id == "dump-corpus" {
+        props::c18::dump_corpus(&args[2]);
         return;
     }
     if id == "c18-worker" {
